@@ -1,6 +1,7 @@
 package main
 
 import (
+	"regexp"
 	"bufio"
 	"fmt"
 	"os"
@@ -127,6 +128,7 @@ type Contracts struct {
 	Regions  map[string]string // type name -> region
 	PureNames map[string]*FuncContract
 	Guarded  map[string]string // field key "T.f" -> mutex field "T.m"
+	Counted  map[string]bool   // callees named in a calls("...") expression somewhere in the contracts
 	Monotone map[string]bool   // "T.f": boolean field that never goes from true to false
 	Preserved map[string][]string // "T.f": field restored by every function before it returns
 	Callers  map[string][]string // callee name -> functions allowed to call it
@@ -136,9 +138,11 @@ type Contracts struct {
 	Lines    int
 }
 
+var countedRe = regexp.MustCompile(`calls\("([^"]+)"\)`)
+
 func ParseContractsFile(path string) (*Contracts, error) {
 	cs := &Contracts{Path: path, Funcs: map[string]*FuncContract{}, TypeInvs: map[string]*TypeInv{},
-		Specs: map[string]*SpecFn{}, Ghosts: map[string]*GhostVar{}, Regions: map[string]string{}, PureNames: map[string]*FuncContract{}, Guarded: map[string]string{}, Monotone: map[string]bool{}, Preserved: map[string][]string{}, Callers: map[string][]string{}, CallersProps: map[string][]string{}, Writers: map[string][]string{}, WritersProps: map[string][]string{}}
+		Specs: map[string]*SpecFn{}, Ghosts: map[string]*GhostVar{}, Regions: map[string]string{}, PureNames: map[string]*FuncContract{}, Guarded: map[string]string{}, Counted: map[string]bool{}, Monotone: map[string]bool{}, Preserved: map[string][]string{}, Callers: map[string][]string{}, CallersProps: map[string][]string{}, Writers: map[string][]string{}, WritersProps: map[string][]string{}}
 	f, err := os.Open(path)
 	if err != nil {
 		if os.IsNotExist(err) {
@@ -164,6 +168,9 @@ func ParseContractsFile(path string) (*Contracts, error) {
 		body := strings.TrimSpace(t[3:])
 		if body == "" {
 			continue
+		}
+		for _, m := range countedRe.FindAllStringSubmatch(body, -1) {
+			cs.Counted[m[1]] = true
 		}
 		if pending != "" {
 			body = pending + " " + body
